@@ -561,14 +561,31 @@ def ids_writable():
 
 def run_dcase(case):
     with contextlib.redirect_stdout(io.StringIO()):
+        out = {'id': case['id']}
+        # (b) the same final dict reached by a public update: the first block alone, then
+        #     update({the other blocks}); on a raise the state that is left behind is recorded
+        first, rest = case['blocks'][0], case['blocks'][1:]
+        e0 = FEMElementalAttribute('ELEMENT', {first[0]: eblock(*first)})
+        try:
+            e0.update({t: eblock(t, ids, rows) for t, ids, rows in rest})
+            out['upd_raised'] = False
+        except Exception as ex:     # noqa
+            out['upd_raised'] = True
+        out['upd'] = {'ids': [int(i) for i in e0.ids], 'types': [str(t) for t in e0.types],
+                      'id2index_ids': [int(i) for i in e0.id2index.index],
+                      'keys': [str(k) for k in e0.keys()],
+                      'dti_keys': [str(k) for k in e0.dict_type_ids.keys()]}
+        # (a) the constructor
         d = {t: eblock(t, ids, rows) for t, ids, rows in case['blocks']}
         try:
             e = FEMElementalAttribute('ELEMENT', d)
         except Exception as ex:     # noqa
-            return {'id': case['id'], 'raised': True, 'exception': type(ex).__name__}
-        return {'id': case['id'], 'raised': False, 'ids': [int(i) for i in e.ids],
-                'types': [str(t) for t in e.types], 'data': [[int(v) for v in r] for r in e.data],
-                'block_ids': [[str(t), [int(i) for i in bl.ids]] for t, bl in e.items()]}
+            out.update({'raised': True, 'exception': type(ex).__name__})
+            return out
+        out.update({'raised': False, 'ids': [int(i) for i in e.ids],
+                    'types': [str(t) for t in e.types], 'data': [[int(v) for v in r] for r in e.data],
+                    'block_ids': [[str(t), [int(i) for i in bl.ids]] for t, bl in e.items()]})
+        return out
 
 
 def main():
